@@ -737,7 +737,9 @@ class SensorCache(MutableMapping):
         # Clean up sensor data if non-empty
         if sensor_data:
             time_offset = props.get('time_offset', 0)
-            sensor_data.timestamp += time_offset
+            # Shift a copy: the raw samples belong to the getter and are shared with its aliases
+            sensor_data = SensorData(sensor_data.name, sensor_data.timestamp + time_offset,
+                                     sensor_data.value, sensor_data.status)
             # Sort sensor events in chronological order and discard duplicates and unreadable sensor values
             sensor_data = remove_duplicates_and_invalid_values(sensor_data)
         if not sensor_data:
